@@ -1,20 +1,23 @@
 (* C17: case vocabulary, model runner and the property predicate. *)
 From OIDC Require Import Lib.
-From OIDC Require Export C17_RP.
+From OIDC Require Export C17_RP C17_Construct.
 
 (* S256 as a per-case oracle table filled by the harness with oidc.NewSHACodeChallenge *)
 Definition hfun (tab : list (string * string)) (v : string) : string :=
   match plookup v tab with Some c => c | None => "" end.
 
+(* A case = how the application built its RP (constructor, options in order, what the
+   OP's discovery document announces), the S256 table, the initial jar, the history. *)
 Inductive input :=
-| Inp (cfg : config) (htab : list (string * string)) (j0 : jar) (ops : list op).
+| Inp (s : setup) (htab : list (string * string)) (j0 : jar) (ops : list op).
 
 Inductive observed :=
 | Obs (evs : list event)
+| ONoRP        (* the constructor returned an error: no RP, nothing happens (never in the model) *)
 | OPanic.
 
 Definition model (i : input) : observed :=
-  match i with Inp cfg tab j0 ops => Obs (run (hfun tab) cfg j0 ops) end.
+  match i with Inp s tab j0 ops => Obs (run (hfun tab) (construct s) j0 ops) end.
 
 (* ---------- the property, on what the implementation answered ---------- *)
 Section Spec.
@@ -119,9 +122,45 @@ Section Spec.
     end.
 End Spec.
 
+(* ---------- what the application configured, read off its constructor call ----------
+   (from the property text and the documentation of the options, not from the
+   constructors' code: "WithPKCE sets the RP to use PKCE ... it also sets a
+   CookieHandler"; "WithCookieHandler set a CookieHandler"; "WithJWTProfile creates a
+   signer used for the JWT Profile Client Authentication on the token endpoint".
+   No option and no constructor documents any dependence of PKCE, client, redirect
+   URI or scopes on what the OP's discovery document announces: "PKCE enabled" is
+   "a WithPKCE option was passed", for both constructors and every document.) *)
+Definition sets_handler (o : rp_option) : option nat :=
+  match o with WithCookieHandler k | WithPKCE k => Some k | _ => None end.
+
+(* the cookie handler in force: the last option that sets one *)
+Fixpoint configured_handler (opts : list rp_option) : option nat :=
+  match opts with
+  | [] => None
+  | o :: r => match configured_handler r with Some k => Some k | None => sets_handler o end
+  end.
+
+Definition is_with_pkce (o : rp_option) : bool := match o with WithPKCE _ => true | _ => false end.
+Definition is_with_jwt (o : rp_option) : bool := match o with WithJWTProfile => true | _ => false end.
+Definition pkce_enabled (opts : list rp_option) : bool := existsb is_with_pkce opts.
+Definition jwt_enabled (opts : list rp_option) : bool := existsb is_with_jwt opts.
+
+(* None: no cookie handler configured - the property does not speak about that RP *)
+Definition intended (s : setup) : option config :=
+  match configured_handler (s_opts s) with
+  | None => None
+  | Some k => Some (Cfg k (pkce_enabled (s_opts s)) (jwt_enabled (s_opts s))
+                        (s_client s) (s_redirect s) (s_scopes s) (endpoint (s_ctor s)) (s_extra s))
+  end.
+
 Definition spec (i : input) (o : observed) : bool :=
   match i, o with
-  | Inp cfg tab j0 ops, Obs evs => spec_run (hfun tab) cfg (honest cfg j0 ops) j0 [] ops evs
+  | Inp s tab j0 ops, Obs evs =>
+      match intended s with
+      | Some cfg => spec_run (hfun tab) cfg (honest cfg j0 ops) j0 [] ops evs
+      | None => true
+      end
+  | _, ONoRP => true
   | _, OPanic => false
   end.
 
@@ -163,6 +202,7 @@ Definition event_eqb (a b : event) : bool :=
 Definition obs_eqb (a b : observed) : bool :=
   match a, b with
   | Obs x, Obs y => list_eqb event_eqb x y
+  | ONoRP, ONoRP => true
   | OPanic, OPanic => true
   | _, _ => false
   end.
@@ -190,7 +230,8 @@ Definition cb_class (cfg : config) (j : jar) (q : params) (ev : event) : nat :=
 
 Definition path (i : input) (o : observed) : nat :=
   match i with
-  | Inp cfg tab j0 ops =>
+  | Inp s tab j0 ops =>
+      let cfg := construct s in
       let tr := trace (hfun tab) cfg j0 [] ops in
       let classes := map (fun t => match t with
                                    | (j, _, OCallback q _ _, ev) => cb_class cfg j q ev
